@@ -114,3 +114,53 @@ def reset_peer_runs(ctx, n):
             ok += 1
     return fails, {"tcp_runs": len(cases), "tcp_reset_observed": ok,
                    "tcp_sample": {"ops": cases[0]["ops"], "observed": results[0] if results else None}}
+
+
+# ---------------------------------------------------------------- C13: slow_close on real sockets, with a receiver that keeps talking
+def slow_close_runs(ctx, n):
+    """slow_close on one stream; the sender closes its socket completely while the receiver of the withheld close keeps writing in the
+    other direction (those writes run into the sender's closed socket): the receiver must still not see the end before the delay"""
+    rng = C.Rng(ctx.seed).fork("C13slow")
+    cases = []
+    for i in range(n):
+        g = i % 6
+        b = port_base(g)
+        up, px = b + 2, b + 3
+        D = rng.choice([300, 600, 900])
+        stream = rng.choice(["upstream", "downstream"])
+        pings = rng.choice([0, 2, 5, 8])
+        ops = [{"op": "upstream", "id": "u", "port": up, "mode": "manual"},
+               api("POST", "/proxies", {"name": "p", "listen": "127.0.0.1:%d" % px, "upstream": "127.0.0.1:%d" % up}),
+               api("POST", "/proxies/p/toxics", {"type": "slow_close", "stream": stream, "attributes": {"delay": D}}),
+               {"op": "dial", "id": "c", "addr": "127.0.0.1:%d" % px},
+               {"op": "upaccept", "id": "s", "up": "u", "ms": 1000}]
+        sender, receiver = ("c", "s") if stream == "upstream" else ("s", "c")
+        ops += [{"op": "send", "id": sender, "n": 100}, {"op": "recv", "id": receiver, "up": sender, "n": 100, "ms": 1000},
+                {"op": "close", "id": sender, "how": rng.choice(["full", "full", "half"])}]
+        mark = len(ops)
+        for _ in range(pings):
+            ops += [{"op": "send", "id": receiver, "n": 10}, {"op": "sleep", "ms": 40}]
+        ops.append({"op": "recv", "id": receiver, "up": sender, "n": 1, "ms": D + 2000})
+        cases.append({"ops": ops, "group": g, "D": D, "stream": stream, "pings": pings, "mark": mark})
+    results = run_tcp(ctx, cases, "c13s")
+    fails, ok = [], 0
+    for c, r in zip(cases, results):
+        if env_broken(r):
+            continue
+        rp = {"kind": "failing-input", "tcp": True, "case": c, "observed": r}
+        if isinstance(r, dict):
+            fails.append(("crash", "process crashed in a slow_close scenario", rp))
+            continue
+        if not r[c["mark"] - 2].get("ok"):
+            continue                                   # the data did not get through in time (loaded machine): inconclusive
+        elapsed = sum(x.get("took_ms", 0) for x in r[c["mark"]:])
+        last = r[-1]
+        if last.get("end") == "timeout":
+            fails.append(("slow-close-never", "slow_close %d ms: the receiver saw no end of stream within %d ms of the sender's close"
+                          % (c["D"], elapsed), rp))
+        elif elapsed + 25 < c["D"]:
+            fails.append(("slow-close-early", "slow_close %d ms on %s: the receiver's connection ended (%s) %d ms after the sender closed, while it was "
+                          "sending %d small messages the other way" % (c["D"], c["stream"], last.get("end"), elapsed, c["pings"]), rp))
+        else:
+            ok += 1
+    return fails, {"tcp_slow_close_runs": len(cases), "tcp_slow_close_ok": ok}
